@@ -79,12 +79,8 @@ Fixpoint core_add (ms : cms) (l : list nat) (init : nat) : cms :=
       else core_add (mkMS (m_states ms) (m_trans ms) (set_assoc (m_models ms) m init) (m_reg ms ++ [m]) (m_cmap ms)) r init
   end.
 
-(* HierarchicalMachine.add_model: afterwards EVERY listed model is set to the state of the first one *)
-Definition hier_add (ms : cms) (l : list nat) : cms :=
-  match l with
-  | [] => ms
-  | m0 :: _ => fold_left (fun acc m => set_model_state acc m (match assoc_nat (m_models ms) m0 with Some s => s | None => 999 end)) l ms
-  end.
+(* HierarchicalMachine.add_model (after fix 4f24f39) initialises only the newly registered models, each from
+   its own state: on flat configurations exactly core_add; a registered model keeps its state. *)
 
 (* LockedMachine.add_model: a model whose entry is empty gets machine_context ++ model_context *)
 Fixpoint lock_add (cm : list (nat * list nat)) (l : list nat) (mc : list nat) : list (nat * list nat) :=
@@ -125,7 +121,6 @@ Definition script_at (s : cspec) (sl : nat) : nat * nat :=
 
 Section Concrete.
   Variable tab : list cspec.
-  Variable hier : bool.
 
   Definition c_start (c : call) : kk :=
     match find_spec tab (c_id c) with
@@ -162,8 +157,7 @@ Section Concrete.
                                       SDone (if ok then RVal 2 else RExn 2))
                        end
                    end
-            | 5 => let ms1 := core_add ms (s_ms s) (s_b s) in
-                   let ms2 := if hier then hier_add ms1 (s_ms s) else ms1 in
+            | 5 => let ms2 := core_add ms (s_ms s) (s_b s) in
                    (mkMS (m_states ms2) (m_trans ms2) (m_models ms2) (m_reg ms2) (lock_add (m_cmap ms2) (s_ms s) (s_mc s)),
                     [], SDone (RVal 2))
             | _ => (ms, [], SDone (RExn 9))
@@ -229,7 +223,7 @@ Section Macro.
   Variable tab : list cspec.
   Variable cfg : lcfg.
   Definition cstep : nat -> cgstate -> cgstate :=
-    step (c_start tab) (c_resume tab (cfg_hier cfg)) c_ret c_reg cfg.
+    step (c_start tab) (c_resume tab) c_ret c_reg cfg.
 
   Fixpoint macro_go (fuel : nat) (first : bool) (t : nat) (g : cgstate) : cgstate :=
     match fuel with
@@ -375,7 +369,7 @@ Definition run_lock_case (x : sx) : sx :=
               let alldone := forallb (fun t => thread_done (g_th g t)) (seq 1 n) in
               let serial :=
                 if alldone then
-                  match serial_run (c_start tab) (c_resume tab (cfg_hier cfg)) c_ret 200 (map snd (g_acq g)) ms0 with
+                  match serial_run (c_start tab) (c_resume tab) c_ret 200 (map snd (g_acq g)) ms0 with
                   | Some (msf, l) =>
                       if sx_eqb (e_final [] msf) (e_final [] (g_ms g)) &&
                          sx_eqb (e_done l) (e_done (map (fun d => (d_res d, d_items d)) (g_done g)))
